@@ -6,6 +6,7 @@ import (
 	"fmt"
 	"math/bits"
 	"reflect"
+	"time"
 
 	"github.com/openacid/slim/encode"
 	"verif/internal/h"
@@ -17,6 +18,32 @@ type encCase struct {
 	Enc   string      `json:"encoder"`
 	Value interface{} `json:"value"` // integer as decimal string / string length+content id / struct lanes
 	Junk  int         `json:"junk"`
+	Tier  string      `json:"tier,omitempty"`
+}
+
+func init() {
+	// an encoder case may depend on the call that preceded it on the same encoder
+	// object: the replay re-runs the (seconds-long) exploration of the recorded
+	// tier and reports the violation of the same encoder again
+	Replayers["c15"] = func(prop string, raw []byte) *h.Viol {
+		var ec encCase
+		if err := jsonUnmarshal(raw, &ec); err != nil {
+			return &h.Viol{Msg: "bad replay payload: " + err.Error()}
+		}
+		tier := ec.Tier
+		if tier == "" {
+			tier = "quick"
+		}
+		r := h.NewRun("C15", tier, 0, "model_checking", 40*time.Minute)
+		C15(r)
+		if v := r.FirstViolation(); v != nil {
+			if v.Sig == "encoder:"+ec.Enc {
+				return v
+			}
+			return &h.Viol{Sig: v.Sig, Msg: "another encoder fails first: " + v.Msg}
+		}
+		return nil
+	}
 }
 
 var lanes = []byte{0x00, 0x01, 0x7f, 0x80, 0xff}
@@ -97,6 +124,13 @@ func checkEnc(w *h.Worker, e encode.Encoder, v interface{}, want []byte, eq func
 	p := h.Safely(func() {
 		enc := e.Encode(v)
 		w.Trans++
+		// an encoding belongs to the caller: the next Encode call on the same
+		// encoder must not change the bytes an earlier call returned
+		if pv := c15PrevOf(w, e); pv != nil && !bytes.Equal(pv.enc, pv.cp) {
+			msg = fmt.Sprintf("Encode(%v) changed the bytes returned by the preceding Encode(%s) on the same encoder: %x, were %x", brief(v), pv.v, cut(pv.enc), cut(pv.cp))
+			return
+		}
+		c15SetPrev(w, e, &c15Prev{e: e, enc: enc, cp: append([]byte{}, enc...), v: brief(v)})
 		if !bytes.Equal(enc, want) {
 			msg = fmt.Sprintf("Encode(%v) = %x, reference layout %x", brief(v), cut(enc), cut(want))
 			return
@@ -129,6 +163,30 @@ func checkEnc(w *h.Worker, e encode.Encoder, v interface{}, want []byte, eq func
 		return fmt.Sprintf("panic on value %v: %v", brief(v), p)
 	}
 	return msg
+}
+
+type c15Prev struct {
+	e       encode.Encoder
+	enc, cp []byte
+	v       string
+}
+
+// c15PrevOf / c15SetPrev keep, per worker and per encoder object, the result of
+// the preceding Encode call (encoders of uncomparable dynamic type are skipped).
+func c15PrevOf(w *h.Worker, e encode.Encoder) (pv *c15Prev) {
+	defer func() { recover() }()
+	m, _ := w.Scratch["c15prev"].(map[encode.Encoder]*c15Prev)
+	return m[e]
+}
+
+func c15SetPrev(w *h.Worker, e encode.Encoder, pv *c15Prev) {
+	defer func() { recover() }()
+	m, _ := w.Scratch["c15prev"].(map[encode.Encoder]*c15Prev)
+	if m == nil || len(m) > 256 {
+		m = map[encode.Encoder]*c15Prev{}
+		w.Scratch["c15prev"] = m
+	}
+	m[e] = pv
 }
 
 func brief(v interface{}) string {
@@ -239,7 +297,8 @@ func refTypeT(v typeT, be bool) []byte {
 // C15 check.
 func C15(r *h.Run) {
 	thorough := r.Tier == "thorough"
-	r.Rule = "every value of the stated per-encoder domains (8/16-bit exhaustive; 32-bit exhaustive in thorough, lane-alphabet {00,01,7f,80,ff}^4 + all 1-/2-bit patterns + power-of-two neighbours in quick; 64-bit and native int: lane^8 + patterns; String16 every length in the stated set x 2 contents; Bytes{n}; Dummy; TypeEncoder struct, plain and defined (named) integer types in both byte orders, each through every public constructor and argument form that yields that order (by value / by reflect.Type, explicit order / nil)); each value is checked with 0, 1 and 7 junk bytes appended; values are distinct by construction; non-trivial = encoding contains at least two different bytes"
+	tier := r.Tier
+	r.Rule = "every value of the stated per-encoder domains; no Encode call changes the bytes an earlier call on the same encoder returned; (8/16-bit exhaustive; 32-bit exhaustive in thorough, lane-alphabet {00,01,7f,80,ff}^4 + all 1-/2-bit patterns + power-of-two neighbours in quick; 64-bit and native int: lane^8 + patterns; String16 every length in the stated set x 2 contents; Bytes{n}; Dummy; TypeEncoder struct, plain and defined (named) integer types in both byte orders, each through every public constructor and argument form that yields that order (by value / by reflect.Type, explicit order / nil)); each value is checked with 0, 1 and 7 junk bytes appended; values are distinct by construction; non-trivial = encoding contains at least two different bytes"
 	r.Assumptions = []string{"only the platform's int width (64) is explored", "reference layout is a hand-written shift/mask codec inside the harness", "Dummy's value domain is {nil}; Bytes{n}'s domain is slices of length n"}
 
 	gen := func(emit func(u interface{}) bool) {
@@ -323,7 +382,7 @@ func C15(r *h.Run) {
 	work := func(w *h.Worker, u interface{}) {
 		x := u.(c15unit)
 		fail := func(enc string, v interface{}, msg string) {
-			w.Report(h.Viol{Sig: "encoder:" + enc, Msg: enc + ": " + msg, Kind: "c15", Case: encCase{Enc: enc, Value: fmt.Sprint(v)}, Unit: w.Unit()})
+			w.Report(h.Viol{Sig: "encoder:" + enc, Msg: enc + ": " + msg, Kind: "c15", Case: encCase{Enc: enc, Value: fmt.Sprint(v), Tier: tier}, Unit: w.Unit()})
 		}
 		switch x.kind {
 		case "range", "list", "plane":
